@@ -361,6 +361,41 @@ def format_to_fstring(target):
     return n
 
 
+def keyword_calls(target, tree):
+    """f(a, b) -> f(x=a, y=b) for calls of functions defined at the top level of the same module (plain signatures only); the first argument stays positional."""
+    sigs = {}
+    for st in tree.body:
+        if isinstance(st, FUNC_TYPES) and not st.decorator_list and not st.args.vararg and not st.args.posonlyargs:
+            sigs[st.name] = [a.arg for a in st.args.args]
+    n = 0
+    for c in ast.walk(target):
+        if isinstance(c, ast.Call) and isinstance(c.func, ast.Name) and c.func.id in sigs and len(c.args) >= 2 and not any(isinstance(a, ast.Starred) for a in c.args) \
+                and len(c.args) <= len(sigs[c.func.id]):
+            params = sigs[c.func.id]
+            new_kw = [ast.keyword(arg=params[i], value=a) for i, a in enumerate(c.args) if i >= 1]
+            c.args = c.args[:1]
+            c.keywords = new_kw + c.keywords
+            n += 1
+    return n
+
+
+class SwapNeg(ast.NodeTransformer):
+    """if a == b: A else: B  ->  if a != b: B else: A  (and in / is likewise): the negation is written into the comparison operator."""
+    INV = {ast.Eq: ast.NotEq, ast.NotEq: ast.Eq, ast.In: ast.NotIn, ast.NotIn: ast.In, ast.Is: ast.IsNot, ast.IsNot: ast.Is}
+
+    def __init__(self):
+        self.n = 0
+
+    def visit_If(self, node):  # noqa: N802
+        self.generic_visit(node)
+        t = node.test
+        if node.orelse and isinstance(t, ast.Compare) and len(t.ops) == 1 and type(t.ops[0]) in self.INV:
+            self.n += 1
+            test = ast.Compare(left=t.left, ops=[self.INV[type(t.ops[0])]()], comparators=t.comparators)
+            return ast.copy_location(ast.If(test=test, body=node.orelse, orelse=node.body), node)
+        return node
+
+
 def find(body, parts):
     for st in body:
         if isinstance(st, FUNC_TYPES + (ast.ClassDef,)) and st.name == parts[0]:
@@ -384,8 +419,8 @@ def run_one(job):
         target = find(tree.body, qual.split('.'))
         if target is None:
             return (prop, rel, qual, kind, 'skip', [])
-        if kind in ('flip', 'swap'):
-            tr = Flip() if kind == 'flip' else Swap()
+        if kind in ('flip', 'swap', 'swapneg'):
+            tr = Flip() if kind == 'flip' else Swap() if kind == 'swap' else SwapNeg()
             tr.visit(target)
             if tr.n == 0:
                 return (prop, rel, qual, kind, 'skip', [])
@@ -406,6 +441,9 @@ def run_one(job):
                     loop.body[-1:] = [ast.If(test=test, body=[ast.Continue()], orelse=[])] + last.body
                     n += 1
             if n == 0:
+                return (prop, rel, qual, kind, 'skip', [])
+        elif kind == 'kwcall':
+            if isinstance(target, ast.ClassDef) or keyword_calls(target, tree) == 0:
                 return (prop, rel, qual, kind, 'skip', [])
         elif kind in ('hoist', 'lamdef', 'condform', 'splitcond', 'demorgan', 'comp2loop', 'earlyret', 'fstring'):
             if isinstance(target, ast.ClassDef):
@@ -448,7 +486,7 @@ def main():
                 continue
             if index.mod(rel).functions.get(qual) is None:
                 continue
-            for kind in os.environ.get('FUZZ_KINDS', 'flip swap log guard hoist lamdef condform splitcond demorgan comp2loop earlyret fstring').split():
+            for kind in os.environ.get('FUZZ_KINDS', 'flip swap swapneg log guard hoist lamdef condform splitcond demorgan comp2loop earlyret fstring kwcall').split():
                 jobs.append((prop, rel, qual, kind, root))
     with multiprocessing.Pool(min(int(os.environ.get('FUZZ_JOBS', '12')), max(1, len(jobs)))) as pool:
         results = pool.map(run_one, jobs)
